@@ -366,9 +366,17 @@ def clause5_success_effect(ctx, P, cg):
     ctx.ob("C04.5 R-COMMIT", rm, "success=>removed", bad is None and n > 0, "remove is answered with success without removing the element",
            witness=bad.witness() if bad else None)
     re = P.fn("element.c:remove_element")
-    names = [P.srcname_of(i.callee) for i in re.all_insts() if i.op == "call" and i.callee]
-    ctx.ob("C04.5 R-COMMIT", re, "remove-is-complete", re.nblocks == 1 and names == ["notify_fetchers", "list_del", "element_table_remove", "free_element"],
-           "remove_element is not the unconditional sequence announce, unlink, un-index, free (found %s)" % names)
+    # on EVERY path: announce, unlink, un-index, free - in this order (other calls, logging say, and the form of the code do not matter)
+    WANT = ["notify_fetchers", "list_del", "element_table_remove", "free_element"]
+    badp = None
+    names = []
+    for v in Q.path_views(ctx, P, re):
+        names = [P.srcname_of(i.callee) for _, i in v.calls() if i.callee and P.srcname_of(i.callee) in WANT]
+        if names != WANT:
+            badp = (v, names)
+    ctx.ob("C04.5 R-COMMIT", re, "remove-is-complete", badp is None and bool(names),
+           "remove_element is not, on every path, the sequence announce, unlink, un-index, free (found %s)" % (badp[1] if badp else names),
+           witness=badp[0].witness() if badp else None)
 
 
 def clause7_kind(ctx, P):
